@@ -170,6 +170,54 @@ TEMPO_SETS = {
 }
 
 
+def random_file(rng):
+    """a generated BMS body: objects on distinct positions per lane, LNOBJ ends after an object of the lane, 0-3 tempo events on
+    the quarter-beat grid (so that the known finding about the snap grid is not touched), data lines in random file order"""
+    lay = rng.choice(LAYOUTS)
+    nl = len(lane_channels(lay))
+    divs = (1, 2, 3, 4, 6, 8, 12, 16, 24, 32, 48, 64, 96, 192)
+    note_lines = []
+    for lane in rng.sample(range(nl), rng.randint(1, min(nl, 4))):
+        cells = set()
+        while len(cells) < rng.randint(1, 5):
+            d = rng.choice(divs)
+            cells.add((rng.randint(0, 4), F(rng.randrange(d), d)))
+        cells = sorted(cells)
+        ids = []
+        for i in range(len(cells)):
+            if i and ids[-1] != "ZZ" and rng.random() < 0.35:
+                ids.append("ZZ")
+            else:
+                ids.append(rng.choice(("01", "02", "0Z", "0A")))
+        # spread the lane's objects over lines: objects of one measure go to one or two lines of suitable division
+        for m in sorted({c[0] for c in cells}):
+            here = [(f, i_) for (mm, f), i_ in zip(cells, ids) if mm == m]
+            groups = [here] if len(here) < 2 or rng.random() < 0.5 else [here[::2], here[1::2]]
+            for g in groups:
+                den = 1
+                for f, _i in g:
+                    den = den * f.denominator // __import__("math").gcd(den, f.denominator)
+                den *= rng.choice((1, 1, 2))
+                note_lines.append((m, lane, den, {int(f * den): i_ for f, i_ in g}))
+    tempo_lines = []
+    used = set()
+    ex = iter(("01", "02", "0A"))
+    for _ in range(rng.randint(0, 3)):
+        d = rng.choice((1, 2, 4, 8, 16))
+        m, slot = rng.randint(0, 4), rng.randrange(d)
+        if (m, F(slot, d)) in used:
+            continue
+        used.add((m, F(slot, d)))
+        if rng.random() < 0.5:
+            tempo_lines.append((m, "03", d, {slot: rng.choice(("3C", "78", "B4", "FF", "01"))}))
+        else:
+            tempo_lines.append((m, "08", d, {slot: next(ex)}))
+    n = len(note_lines) + len(tempo_lines)
+    order = list(range(n))
+    rng.shuffle(order)
+    return lay, note_lines, tempo_lines, tuple(order)
+
+
 KNOWN_FAILING = ("incommensurate-changes", "off-farey96-grid")
 
 
@@ -204,5 +252,12 @@ def obligations(tier, seed):
         for nname in ("ln-in-line", "ln-across-measures", "ln-then-hit"):
             obs.append(Obligation("C04/read/%s/%s/lnobj-id-has-a-wav" % (lay, nname), partial(ob_read, lay, S[nname], TEMPO_SETS["ext-mid"], None, extra_header=("#WAVZZ lnend.wav",)),
                                   bound="layout %s; note lines %s; the #LNOBJ id also has a #WAV definition" % (lay, S[nname])))
+    import random
+
+    rng = random.Random(4000 + seed)
+    for k in range(8 if quick else 400):
+        lay, nlines, tlines, order = random_file(rng)
+        obs.append(Obligation("C04/read/generated%d" % k, partial(ob_read, lay, nlines, tlines, order),
+                              bound="generated BMS (seed %d): layout %s; note lines %s; tempo lines %s; file order %s" % (seed, lay, nlines, tlines, order)))
     obs.append(Obligation("C04/read/BME/no-lnobj", partial(ob_read, "BME", note_sets(8)["hits"], TEMPO_SETS["ext-mid"], None, lnobj=""), bound="file without #LNOBJ"))
     return obs
